@@ -410,6 +410,52 @@ pub fn all_mutants(p: &Program) -> Vec<Mutant> {
             prog: q,
         });
     }
+    // 15b a variable and a covariable of the same name in one parameter list (the name is used
+    // in the body in the chirality of the rightmost binding, so only the duplicate is wrong)
+    {
+        for (k, (params, body, what)) in [
+            (
+                vec![Param { name: "dd".into(), cns: true, ty: Ty::I64 }, Param { name: "dd".into(), cns: false, ty: Ty::I64 }],
+                Tm::Var("dd".into()),
+                "covariable then variable of the same name",
+            ),
+            (
+                vec![Param { name: "dd".into(), cns: false, ty: Ty::I64 }, Param { name: "dd".into(), cns: true, ty: Ty::I64 }],
+                Tm::Goto { name: "dd".into(), arg: Box::new(Tm::Lit(1)) },
+                "variable then covariable of the same name",
+            ),
+        ]
+        .into_iter()
+        .enumerate()
+        {
+            let mut q = p.clone();
+            let idx = q.defs.len();
+            q.defs.push(Def { name: format!("zz_dupchi{k}"), params, ret: Ty::I64, body });
+            if !q.order.is_empty() {
+                q.order.push(Decl::Def(idx));
+            }
+            out.push(Mutant { class: "15-duplicate-parameter-mixed-chirality", what: what.into(), prog: q });
+        }
+    }
+    // 19 the same binder twice in one clause
+    term_mutants(p, "19-duplicate-binder", &mut out, &|t| {
+        let edit = |clauses: &Vec<Clause>| -> Option<Vec<Clause>> {
+            let i = clauses.iter().position(|c| c.binders.len() >= 2)?;
+            let mut c = clauses.clone();
+            let first = c[i].binders[0].clone();
+            c[i].binders[1] = first;
+            // the body may use the renamed binder: replace it by a closed term
+            c[i].body = Tm::Exit(Box::new(Tm::Lit(0)));
+            Some(c)
+        };
+        match t {
+            Tm::Case { scrut, tyargs, clauses } => {
+                Some((Tm::Case { scrut: scrut.clone(), tyargs: tyargs.clone(), clauses: edit(clauses)? }, "a clause of a case binds the same name twice".into()))
+            }
+            Tm::New { clauses } => Some((Tm::New { clauses: edit(clauses)? }, "a clause of a new binds the same name twice".into())),
+            _ => None,
+        }
+    });
     // 16 wrong annotated type / constructor of another type
     term_mutants(p, "16-wrong-annotation", &mut out, &|t| match t {
         Tm::Let { var, ty, lazy, bound, body } => {
